@@ -226,6 +226,9 @@ def cpu_bounded_decodes(acc, cases, cpu_s=4.0):
 
 # ------------------------------------------------------------------------------------------------ part B: live node
 
+# framed correctly (their Message Length is right), refused by the decoder or the validators as a whole: what follows them is intact
+FRAMED_AND_REFUSED = {"u32-width-5", "unknown-enumerator", "bad-address-family-width", "grouped-missing-mandatory", "invalid-uri", "nested-bad-member",
+                      "avp-length-overrun", "avp-length-0"}
 DESYNC = {"garbage", "short-header-tail", "truncated-then-valid", "valid-then-garbage", "huge-declared-length"}
 NODE_STATES = ["server-awaiting-cer", "client-awaiting-cea", "open-idle", "open-with-traffic", "closing"]
 
@@ -364,6 +367,12 @@ def node_case(acc, case):
                 wit["bytes"] = data.hex()[:400]
             # ---- the malformed bytes arrive (sometimes fragmented)
             chunks = [rng.randrange(1, max(2, len(data)))] if (len(data) > 2 and rng.random() < 0.4) else None
+            tail_dwr = bool(case.get("tail_dwr")) and case["input"] not in DESYNC and st in ("open-idle", "open-with-traffic")
+            if tail_dwr:
+                # a valid watchdog request follows in the very same segment: the refused message costs itself, nothing behind it
+                data = data + R.encode(N.dwr(hbh=4141, e2e=4140))
+                chunks = None
+                acc.counters["valid_request_right_behind_the_malformed_message"] += 1
             sc.inject(data, chunks=chunks)
             s.run_until(lambda: not sc.node_sock.rx, 3.0, "consumed")
             s.run_until(lambda: False, 0.05, "react")
@@ -409,6 +418,9 @@ def node_case(acc, case):
             elif state in ("I-Open", "R-Open"):
                 # responsiveness: DWR answered, send_message returns, close() returns and Closed is reached
                 sc.read_emitted()
+                if tail_dwr and not any(N.name_of(m) == "DWA" and m.hbh == 4141 for m in sc.emitted_msgs) and case["input"] in FRAMED_AND_REFUSED:
+                    acc.violation("valid-request-behind-a-malformed-message-ignored:%s" % case["input"], "the DWR that followed %s in the same segment was never answered (state %s)" % (tag, state), wit)
+                    return
                 sc.inject(R.encode(N.dwr(hbh=4242, e2e=4243)))
                 ok = s.run_until(lambda: any(N.name_of(m) == "DWA" and m.hbh == 4242 for m in (sc.read_emitted() or sc.emitted_msgs[-6:])), 5.0, "probe")
                 if not any(N.name_of(m) == "DWA" and m.hbh == 4242 for m in sc.emitted_msgs):
@@ -565,7 +577,7 @@ def main(tier, seed):
         for inp in names:
             for rep in range(1 if q else 12):
                 ncases.append({"seed": seed * 4099 + len(ncases), "state": st, "input": inp, "role": rng.choice(["client", "server"]),
-                               "strategy": "rr" if rep == 0 else "rw", "p": rng.choice([0.02, 0.1, 0.3])})
+                               "strategy": "rr" if rep == 0 else "rw", "p": rng.choice([0.02, 0.1, 0.3]), "tail_dwr": (len(ncases) + rep + seed) % 2 == 0})
     rng.shuffle(ncases)
     nb = 12 if q else 48
     for i in range(nb):
@@ -578,7 +590,7 @@ def main(tier, seed):
                            "memory growth is bounded by the iteration bound plus RLIMIT_AS on the worker",
                            "hostile text (long legal runs closed by an illegal character, nested separators) in every text-typed dictionary AVP is decoded in a child process under a CPU-time limit of 4 s per decode (RLIMIT_CPU: consumed CPU seconds, not wall-clock time)"],
                           t0, extra_cov={"sweep24_exhaustive": not q},
-                          require_counters=("decodes", "library_errors", "cpu_bounded_decodes", "complete_nests", "guard_armed", "node_scenarios", "stayed_responsive", "deep_nesting_decodes"))
+                          require_counters=("decodes", "library_errors", "cpu_bounded_decodes", "complete_nests", "valid_request_right_behind_the_malformed_message", "guard_armed", "node_scenarios", "stayed_responsive", "deep_nesting_decodes"))
 
 
 def replay(w):
